@@ -9,6 +9,7 @@ import (
 	"encoding/hex"
 	"fmt"
 	"io"
+	"log"
 	"os"
 	"sort"
 
@@ -25,6 +26,8 @@ import (
 // Quiet silences skycoin's loggers (they write to stdout by default)
 func Quiet() {
 	logging.Disable()
+	// the coin package reports overflows through the standard logger
+	log.SetOutput(io.Discard)
 }
 
 // Key is a harness-owned key pair
